@@ -325,6 +325,7 @@ struct reb_particle reb_simulation_particle_by_hash_mpi(struct reb_simulation* c
 }
 
 void reb_simulation_remove_all_particles(struct reb_simulation* const r){
+	reb_tree_delete(r); // The tree cells refer to particle indices. They would be stale.
 	r->N 		= 0;
 	r->N_allocated 	= 0;
 	r->N_active 	= -1;
